@@ -371,6 +371,11 @@ pub fn run(ctx: &Ctx, rep: &mut Report) {
             run_and_compare(rep, "c11", &x);
             return;
         }
+        if v["case"]["gen"] == "const-generic" {
+            let x: Vec<XCase> = const_generic_cases(ctx.tier.name()).into_iter().filter(|x| x.detail["item"] == v["case"]["item"] && x.detail["entry"] == v["case"]["entry"]).collect();
+            run_and_compare(rep, "c11", &x);
+            return;
+        }
         if v["case"]["gen"] == "generic-type-level" {
             let x: Vec<XCase> = generic_type_level_cases(ctx.tier.name()).into_iter().filter(|x| x.detail["item"] == v["case"]["item"] && x.detail["entry"] == v["case"]["entry"]).collect();
             run_and_compare(rep, "c11", &x);
@@ -413,6 +418,7 @@ pub fn run(ctx: &Ctx, rep: &mut Report) {
     if ctx.replay.is_none() {
         x.extend(generic_type_level_cases(ctx.tier.name()));
         x.extend(fragment_precedence_cases(ctx.tier.name()));
+        x.extend(const_generic_cases(ctx.tier.name()));
     }
     run_and_compare(rep, "c11", &x);
 }
@@ -426,15 +432,16 @@ fn fragment_precedence_cases(tier: &str) -> Vec<XCase> {
             Entry::Attr => "#[derive_ex(Default)]".to_string(),
             Entry::Derive => "#[derive(Ex)]\n#[derive_ex(Default)]".to_string(),
         };
-        let item = "pub struct X { #[default($e * 2)] pub a: u8, #[default(10 - $e)] pub b: u8, #[default(-($e) as i8)] pub c: i8 }";
-        let code = format!("use derive_ex::{{derive_ex, Ex}};\nmacro_rules! mk {{ ($e:expr) => {{ #[derive(Debug)]\n{head}\n{item}\nfn direct() -> X {{ X {{ a: $e * 2, b: 10 - $e, c: -($e) as i8 }} }} }} }}\nmk!(1 + 2);\npub fn run() -> String {{ format!(\"{{:?}}|{{:?}}\", <X as ::core::default::Default>::default(), direct()) }}\n");
+        // the fragment at the top level of the value, inside a call, inside a block, inside an array
+        let item = "pub struct X { #[default($e * 2)] pub a: u8, #[default(10 - $e)] pub b: u8, #[default(-($e) as i8)] pub c: i8, #[default(wrap($e * 2))] pub d: u8, #[default({ 10 - $e })] pub e: u8, #[default([$e * 2, 0][0])] pub f: u8 }";
+        let code = format!("use derive_ex::{{derive_ex, Ex}};\nfn wrap(x: u8) -> u8 {{ x }}\nmacro_rules! mk {{ ($e:expr) => {{ #[derive(Debug)]\n{head}\n{item}\nfn direct() -> X {{ X {{ a: $e * 2, b: 10 - $e, c: -($e) as i8, d: wrap($e * 2), e: {{ 10 - $e }}, f: [$e * 2, 0][0] }} }} }} }}\nmk!(1 + 2);\npub fn run() -> String {{ format!(\"{{:?}}|{{:?}}\", <X as ::core::default::Default>::default(), direct()) }}\n");
         let mut atoms = BTreeSet::new();
         atoms.insert(format!("entry={}", entry.name()));
         atoms.insert("expr=around-an-expr-fragment".to_string());
         v.push(XCase {
             text: format!("{} {} [$e = 1 + 2]", entry.name(), item),
             code,
-            expected: "X { a: 6, b: 7, c: -3 }|X { a: 6, b: 7, c: -3 }".to_string(),
+            expected: "X { a: 6, b: 7, c: -3, d: 6, e: 7, f: 6 }|X { a: 6, b: 7, c: -3, d: 6, e: 7, f: 6 }".to_string(),
             atoms,
             nontrivial: true,
             detail: json!({"gen": "fragment-precedence", "tier": tier, "entry": entry.name(), "item": item}),
@@ -443,6 +450,68 @@ fn fragment_precedence_cases(tier: &str) -> Vec<XCase> {
             symptom: "default-value-differs".into(),
             must_compile: true,
         });
+    }
+    // fragments of other kinds inside a value: a statement, a type, an expression used as a whole argument - none of
+    // them may be disturbed (a parenthesized `let` is no statement; needless parentheses draw `unused_parens`)
+    for entry in Entry::BOTH {
+        let head = match entry {
+            Entry::Attr => "#[derive_ex(Default)]".to_string(),
+            Entry::Derive => "#[derive(Ex)]\n#[derive_ex(Default)]".to_string(),
+        };
+        let item = "pub struct X { #[default({ $s; $v + 1 })] pub a: u32, #[default(<$t>::MAX as u64 + 1)] pub b: u64, #[default(wrap($e))] pub c: u64 }";
+        let code = format!("macro_rules! mk2 {{ ($s:stmt, $v:ident, $t:ty, $e:expr) => {{ #[deny(unused_parens)] pub mod d {{ use derive_ex::{{derive_ex, Ex}};\npub fn wrap(x: u64) -> u64 {{ x }}\n#[derive(Debug)]\n{head}\n{item}\n}} }} }}\nmk2!(let x = 3, x, u32, 1 + 2);\npub fn run() -> String {{ format!(\"{{:?}}\", <d::X as ::core::default::Default>::default()) }}\n");
+        let mut atoms = BTreeSet::new();
+        atoms.insert(format!("entry={}", entry.name()));
+        atoms.insert("expr=stmt-ty-and-whole-argument-fragments".to_string());
+        v.push(XCase {
+            text: format!("{} {} [$s = let x = 3, $v = x, $t = u32, $e = 1 + 2]", entry.name(), item),
+            code,
+            expected: "X { a: 4, b: 4294967296, c: 3 }".to_string(),
+            atoms,
+            nontrivial: true,
+            detail: json!({"gen": "fragment-precedence", "tier": tier, "entry": entry.name(), "item": item}),
+            what: format!("derive_ex(Default) via {} on `{}` inside macro_rules! under deny(unused_parens)", entry.name(), item),
+            inner: 1,
+            symptom: "default-value-differs".into(),
+            must_compile: true,
+        });
+    }
+    v
+}
+
+/// Const parameters: a field whose type mentions only a CONST parameter (`[u8; N]`) and has no explicit value is
+/// filled by its own `Default` impl, which the derived impl must require (`[u8; N]: Default` holds for N <= 32 only).
+fn const_generic_cases(tier: &str) -> Vec<XCase> {
+    let mut v = Vec::new();
+    let items = [
+        ("pub struct X<const N: usize> { #[default(7)] pub a: u8, pub b: [u8; N] }", "X<2>", "X { a: 7, b: [0, 0] }"),
+        ("pub struct X<const N: usize>(pub [i8; N], #[default(9)] pub u8);", "X<3>", "X([0, 0, 0], 9)"),
+        ("pub enum X<const N: usize> { A, #[default] B { q: [u8; N], #[default(4)] r: u8 } }", "X<1>", "B { q: [0], r: 4 }"),
+        ("pub struct X<T, const N: usize> { pub a: [T; N], #[default(1)] pub b: u8 }", "X<u16, 2>", "X { a: [0, 0], b: 1 }"),
+    ];
+    for (item, inst, expected) in items {
+        for entry in Entry::BOTH {
+            let head = match entry {
+                Entry::Attr => "#[derive_ex(Default)]".to_string(),
+                Entry::Derive => "#[derive(Ex)]\n#[derive_ex(Default)]".to_string(),
+            };
+            let code = format!("use derive_ex::{{derive_ex, Ex}};\n#[derive(Debug)]\n{head}\n{item}\npub fn run() -> String {{ format!(\"{{:?}}\", <{inst} as ::core::default::Default>::default()) }}\n");
+            let mut atoms = BTreeSet::new();
+            atoms.insert(format!("entry={}", entry.name()));
+            atoms.insert("generics=const-parameter".to_string());
+            v.push(XCase {
+                text: format!("{} {}", entry.name(), item),
+                code,
+                expected: expected.to_string(),
+                atoms,
+                nontrivial: true,
+                detail: json!({"gen": "const-generic", "tier": tier, "entry": entry.name(), "item": item}),
+                what: format!("derive_ex(Default) via {} on `{}` instantiated as {}", entry.name(), item, inst),
+                inner: 1,
+                symptom: "default-value-differs".into(),
+                must_compile: true,
+            });
+        }
     }
     v
 }
